@@ -415,7 +415,11 @@ func runC18(e *Env) {
 			default:
 				body, _ = json.Marshal(a)
 			}
-			if len(body) > 0 {
+			if len(body) > 0 && (ct.Kind == "json" || ct.Kind == "xml") && chance(r, 1, 3) {
+				// a complete document followed by something: white space / an XML comment are fine, anything else is not one document
+				body = append(body, pick(r, []string{" garbage{{{", "{\"age\":2}", "\n\n", " \t", "garbage<<<", "<x/>", "<!-- trailing comment -->", "]", "0", "\x00"})...)
+				t.Count("malformed.document_plus_tail", 1)
+			} else if len(body) > 0 {
 				if chance(r, 1, 2) {
 					body = body[:r.IntN(len(body))]
 				} else {
@@ -461,7 +465,12 @@ func runC18(e *Env) {
 				ierr = xml.Unmarshal(body, &probe)
 			}
 			// an independent decoder refuses the whole document => the binder must not report success
-			if ierr != nil && err == nil && !jsonPrefixValid(ct.Kind, body) {
+			// (for XML the independent decoder is as lenient about text behind the root element as the
+			// library's: strictDoc looks at what follows the first document itself)
+			if ierr == nil && !strictDoc(ct.Kind, body) {
+				ierr = fmt.Errorf("data after the top-level value")
+			}
+			if ierr != nil && err == nil && (strictDocKinds[ct.Kind] || !jsonPrefixValid(ct.Kind, body)) {
 				t.Fail("malformed-accepted", "%s body %q is refused by an independent decoder (%v) but the binder reported success, bound %+v", ct.Kind, body, ierr, got)
 			}
 		}
@@ -704,9 +713,47 @@ func runC18(e *Env) {
 	e.Require("roundtrip.unknown_content_length", 500)
 }
 
-// jsonPrefixValid: the streaming decoder the documentation names (json.Decoder /
-// xml.Decoder) legitimately accepts a valid first document followed by garbage;
-// only documents whose FIRST value is already invalid count as "malformed".
+// (jsonPrefixValid is the earlier, laxer reading - "a valid first document followed by garbage is
+// accepted by a streaming decoder" - and is no longer used for JSON and XML bodies: a body that is
+// not exactly one document is malformed input.)
+var strictDocKinds = map[string]bool{"json": true, "xml": true}
+
+// strictDoc reports whether body is exactly one document: after the first decoded value only
+// white space (JSON) / white space, comments and processing instructions (XML) may follow.
+func strictDoc(kind string, body []byte) bool {
+	var probe bindA
+	if kind == "json" {
+		dec := json.NewDecoder(bytes.NewReader(body))
+		if dec.Decode(&probe) != nil {
+			return false
+		}
+		_, err := dec.Token()
+		return err == io.EOF
+	}
+	dec := xml.NewDecoder(bytes.NewReader(body))
+	if dec.Decode(&probe) != nil {
+		return false
+	}
+	for {
+		tok, err := dec.Token()
+		if err == io.EOF {
+			return true
+		}
+		if err != nil {
+			return false
+		}
+		switch x := tok.(type) {
+		case xml.CharData:
+			if len(bytes.TrimSpace(x)) != 0 {
+				return false
+			}
+		case xml.Comment, xml.ProcInst, xml.Directive:
+		default:
+			return false
+		}
+	}
+}
+
 func jsonPrefixValid(kind string, body []byte) bool {
 	var probe bindA
 	if kind == "json" {
